@@ -364,10 +364,106 @@ def _atom_matches(prog, a, pred, polarity, fields, calls, owner, params, depth, 
     return True
 
 
-def has_guard(prog, body, bb, *, pred=None, polarity=None, fields=None, calls=None, owner=None, params=None, depth=2, assume=(), calls_depth=0):
+def has_guard(prog, body, bb, *, pred=None, polarity=None, fields=None, calls=None, owner=None, params=None, depth=2, assume=(), calls_depth=0, interproc=True):
     for a in guard_atoms(body, bb, prog, assume):
         if _atom_matches(prog, a, pred, polarity, fields, calls, owner, params, depth, calls_depth):
             return a
+    if interproc and prog is not None:
+        # the guard may live in the caller(s) of a crate-private helper: it counts when it holds at every call site
+        for a in caller_atoms(prog, body) or []:
+            if _atom_matches(prog, a, pred, polarity, fields, calls, owner, params, depth, calls_depth):
+                return a
     return None
 
 
+def guard_atoms_ip(body, bb, prog, assume=()):
+    """local guard atoms plus the ones common to all callers of a crate-private helper (marked with a 5th element 'caller')"""
+    return list(guard_atoms(body, bb, prog, assume)) + list(caller_atoms(prog, body) or [])
+
+
+
+
+# ------------------------------------------------------------------------------------ guards living in callers
+def _strip_ids(t):
+    """structural copy of a term without the block ids of call terms (so that terms of different bodies can be compared)"""
+    if isinstance(t, tuple):
+        if t and t[0] == "call" and len(t) > 3:
+            return ("call", t[1], tuple(_strip_ids(a) for a in t[2]))
+        return tuple(_strip_ids(a) for a in t)
+    return t
+
+
+def _logic_root(prog, body):
+    """(fn body, how its parameters appear inside `body`): for an `async fn` the code lives in fn::{closure#0} and the
+    parameters are its captures, in order"""
+    d = body.defpath
+    if body.is_closure:
+        if not d.endswith("::{closure#0}"):
+            return None, None
+        root = prog.bodies.get(d[:-len("::{closure#0}")])
+        if root is None or not root.rec.get("asyncness"):
+            return None, None
+        caps = list(body.captures)
+        return root, (lambda i: ("upvar", caps[i - 1]) if 0 < i <= len(caps) else None)
+    return body, (lambda i: ("param", i, body.local_name(i)))
+
+
+def caller_atoms(prog, body, max_callers=12):
+    """Guard atoms that hold at EVERY call site of the (crate-private) function `body` belongs to, rewritten into the callee's
+    vocabulary (caller argument terms -> callee parameters). None when the callers are not all known (public fn, no caller,
+    too many). Only conditions common to all callers are returned."""
+    root, pterm = _logic_root(prog, body)
+    if root is None or root.rec.get("vis") == "Public":
+        return None
+    sites = prog.callers_of(root.defpath)
+    sites = [c for c in sites if c.body.defpath != body.defpath and c.body.defpath != root.defpath]   # ignore recursion
+    if not sites or len(sites) > max_callers:
+        return None
+    common = None
+    for c in sites:
+        sub = {}
+        for i, a in enumerate(c.args):
+            pt = pterm(i + 1)
+            if pt is not None:
+                at = _strip_ids(c.body.operand_term(a))
+                sub[at] = _strip_ids(pt)
+                # a reference / copy of the argument is the same value for guard purposes
+                pa = at
+                while isinstance(pa, tuple) and pa and pa[0] in ("ref", "copy", "move", "deref") and len(pa) > 1:
+                    pa = pa[1]
+                    sub.setdefault(pa, _strip_ids(pt))
+
+        def rw(t):
+            if t in sub:
+                return sub[t]
+            if isinstance(t, tuple):
+                return tuple(rw(x) for x in t)
+            return t
+        here = set()
+        for a in guard_atoms(c.body, c.bb, prog):
+            if a[0] in ("lowered",):
+                continue
+            args = rw(_strip_ids(a[1]))
+            # keep only conditions that speak about the callee's own parameters (everything else is the caller's business
+            # and must not be mistaken for a guard on the callee's subject)
+            allowed = set(sub.values())
+            foreign = False
+
+            def leaves(t):
+                nonlocal foreign
+                if isinstance(t, tuple):
+                    if t and t[0] in ("param", "upvar", "local") and t not in allowed:
+                        foreign = True
+                        return
+                    if t in allowed:
+                        return
+                    for x in t:
+                        leaves(x)
+            leaves(args)
+            if foreign:
+                continue
+            here.add((a[0], args, a[2]))
+        common = here if common is None else (common & here)
+        if not common:
+            return []
+    return [x + (None, "caller") for x in sorted(common, key=repr)]
